@@ -117,8 +117,13 @@ def scenarios(draw):
                     if n[0] == "elem" and n[1] is el:
                         if i + 1 >= len(kids) or kids[i + 1][0] != "text":
                             kids.insert(i + 1, ["text", [["lit", " . "]]])
+        # the body of a later macro may itself use an earlier macro (no
+        # fillers): what its caller offers must not reach that inner macro
+        nested = None
+        if m >= 1 and draw(st.integers(0, 2)) == 0:
+            nested = draw(st.integers(0, m - 1))
         macros.append({"name": "m%d" % m, "root": root,
-                       "slots": sorted(set(slots))})
+                       "slots": sorted(set(slots)), "nested": nested})
     kind = draw(st.sampled_from(["same", "other", "other", "whole"]))
     if kind == "whole":
         macros = macros[:1]
@@ -161,7 +166,9 @@ def scenarios(draw):
                 fills[s] = f
         unknown = []
         pending = None
-        for _ in range(draw(st.integers(0, 1))):
+        for _ in range(draw(st.integers(0, 1)) or int(
+                macros[target].get("nested") is not None and
+                draw(st.booleans()))):
             ctx.n_elems = 0
             f = tstrat.element(ctx, 0)
             strip_root(f)
@@ -170,7 +177,13 @@ def scenarios(draw):
             foreign = sorted(set(x for k, m_ in enumerate(macros)
                                  if k != target for x in m_["slots"]) -
                              set(slots))
-            if foreign and draw(st.booleans()):
+            inner = macros[target].get("nested")
+            inner_slots = sorted(set(macros[inner]["slots"]) - set(slots)) \
+                if inner is not None else []
+            if inner_slots and draw(st.integers(0, 3)) != 0:
+                # the slot of a macro that is used inside the target's body
+                unknown.append([draw(st.sampled_from(inner_slots)), f])
+            elif foreign and draw(st.booleans()):
                 unknown.append([draw(st.sampled_from(foreign)), f])
                 pending = unknown[-1][0]
             else:
@@ -233,6 +246,35 @@ def inline_macro(root, fills):
     return root
 
 
+def nested_ref(case, k):
+    return ("macros['%s']" if case["kind"] == "same"
+            else "lib.macros['%s']") % case["macros"][k]["name"]
+
+
+def body_a(case, mi):
+    """(A) the defining element of macro mi (without its define-macro)."""
+    m = case["macros"][mi]
+    a = mark_slots(clone(m["root"]))
+    if m.get("nested") is not None and case["kind"] != "whole":
+        a["children"] += [["text", [["lit", " nested:"]]], ["elem", {
+            "name": "div", "attrs": [], "stmts": {}, "order": [0],
+            "close_space": "", "children": [["text", [["lit", "ignored"]]]],
+            "extra_attrs": [metal_attr("use-macro", nested_ref(
+                case, m["nested"]))]}]]
+    return a
+
+
+def body_b(case, mi, fills):
+    """(B) macro mi with the given fillers; a macro used in its body stands
+    there with all its slots at their defaults."""
+    m = case["macros"][mi]
+    b = inline_macro(m["root"], fills)
+    if m.get("nested") is not None and case["kind"] != "whole":
+        b["children"] += [["text", [["lit", " nested:"]]],
+                          ["elem", body_b(case, m["nested"], {})]]
+    return b
+
+
 def use_element(case, u, ref):
     """(A) the use-macro element with its fillers as children."""
     use = case["uses"][u]
@@ -266,7 +308,7 @@ def effective_macro(case, u):
         filler = inline_macro(ext["filler"], inner_fills)
         fills = dict(fills)
         fills[ext["slot"]] = filler
-    return inline_macro(m["root"], fills)
+    return body_b(case, use["macro"], fills)
 
 
 def wrapper(case, u, inner_el):
@@ -283,13 +325,13 @@ def build(case):
     macros = case["macros"]
     # --- library nodes
     libA, libB = [], []
-    for m in macros:
-        a = mark_slots(clone(m["root"]))
+    for mi, m in enumerate(macros):
+        a = body_a(case, mi)
         if kind != "whole":
             a.setdefault("extra_attrs", []).append(
                 metal_attr("define-macro", m["name"]))
         libA += [["elem", a], ["text", [["lit", "\n"]]]]
-        libB += [["elem", clone(m["root"])], ["text", [["lit", "\n"]]]]
+        libB += [["elem", body_b(case, mi, {})], ["text", [["lit", "\n"]]]]
     if case["extend"]:
         ext = case["extend"]
         base = macros[ext["base"]]
@@ -360,7 +402,8 @@ class Inline(Part):
     name = "inline"
     examples = {"quick": 900, "thorough": 30000}
     floors = {"filled_and_default": 0.1,
-              "unused_filler_then_macro_with_that_slot": 0.03}
+              "unused_filler_then_macro_with_that_slot": 0.03,
+              "unused_filler_and_inner_macro_with_that_slot": 0.03}
 
     def strategy(self, tier):
         return scenarios()
@@ -382,8 +425,19 @@ class Inline(Part):
                     if name in case["macros"][later["macro"]]["slots"] and \
                             name not in later["fills"]:
                         stale = True
+        through = False
+        for use in case["uses"]:
+            k = case["macros"][use["macro"]].get("nested")
+            while k is not None:
+                if any(n in case["macros"][k]["slots"]
+                       for n, _f in use["unknown"]):
+                    through = True
+                k = case["macros"][k].get("nested")
         return {"filled_and_default": fd, "repeated_slot": rep,
                 "unused_filler_then_macro_with_that_slot": stale,
+                "unused_filler_and_inner_macro_with_that_slot": through,
+                "nested_use": any(m.get("nested") is not None
+                                  for m in case["macros"]),
                 "extend": any(u["ext"] for u in case["uses"]),
                 "kind_" + case["kind"]: True,
                 "unknown_fill": any(u["unknown"] for u in case["uses"])}
